@@ -23,7 +23,7 @@ PENDING = {}
 
 PROPS['C01'] = dict(
     id='C01',
-    modules=['CollectionModel.Props.C01', 'CollectionModel.Tie.Fns', 'CollectionModel.Tie.LoopsList'],
+    modules=['CollectionModel.Props.C01', 'CollectionModel.Tie.Fns', 'CollectionModel.Tie.LoopsList', 'CollectionModel.Tie.LoopsArray'],
     key=seq_key, nontrivial=seq_nontrivial,
     rule="cases = single List/Array calls (pre-state, operation, observation) taken from exhaustive boundary "
          "enumeration at small sizes and from random histories; a case is non-trivial when it is not a constructor "
@@ -31,8 +31,8 @@ PROPS['C01'] = dict(
          "operand size class, index class per index argument)",
     exhaustive_subspaces="every operation with every index/slot/range in ±(n+2) and six operand shapes on 3 contents "
                          "per size n ≤ 3 (quick) / n ≤ 5 (thorough), element types int,string,float64,[]int,any, List and Array",
-    level_text="Lean 4 theorems C01_step_refines / C01_history / C01_returns / C01_panic_unchanged / C01_insert_frame: the loop-by-loop model of list.go and array.go refines the abstract ordinal-indexed sequence for every state, operation, index, slot, range, operand and finite history (no size bound). Tied to /repo on every run (a) by translation: toZeroBased / toNormalized (T3) and the rebuild loops of list_ – InsertValue, InsertValues, AppendValue, AppendValues, RemoveValue, RemoveValues, RemoveAll – are re-translated statement by statement (Generated/LoopsList.lean: a fresh array of zero values filled through SetValue, an iterator that hands out the zero value once exhausted, int/uint arithmetic with wrap-around, make failing beyond the int range) and Tie.listInsertValue_tie … listRemoveValues_tie prove them equal to the model's functions for every list shorter than 2^62, every slot, index and range; (b) by a differential run (real code vs compiled Lean model on the same calls) and by the executable spec judging the real observations.",
-    level_note="The theorems are about the hand-written model (array_'s own methods and the searching methods are tied by the differential run only); the correspondence is sampled (exhaustive only in the stated small sub-spaces). Go int is unbounded in the model; element equality is taken on canonical ids; crypto/rand is external (shuffle judged by the spec only).",
+    level_text="Lean 4 theorems C01_step_refines / C01_history / C01_returns / C01_panic_unchanged / C01_insert_frame: the loop-by-loop model of list.go and array.go refines the abstract ordinal-indexed sequence for every state, operation, index, slot, range, operand and finite history (no size bound). Tied to /repo on every run (a) by translation: toZeroBased / toNormalized (T3) and the rebuild loops of list_ – InsertValue, InsertValues, AppendValue, AppendValues, RemoveValue, RemoveValues, RemoveAll – are re-translated statement by statement (Generated/LoopsList.lean: a fresh array of zero values filled through SetValue, an iterator that hands out the zero value once exhausted, int/uint arithmetic with wrap-around, make failing beyond the int range) and Tie.listInsertValue_tie … listRemoveValues_tie prove them equal to the model's functions for every list shorter than 2^62, every slot, index and range; array_'s GetValue, GetValues, SetValue, SetValues, AsArray, GetSize, IsEmpty are re-translated onto a memory of arrays (Generated/LoopsArray.lean: bounds-checked indexing and re-slicing, make, copy) and Tie.arrayGetValue_tie … arraySetValues_tie prove them equal to the model's functions on the array's contents; (b) by a differential run (real code vs compiled Lean model on the same calls) and by the executable spec judging the real observations.",
+    level_note="The theorems are about the hand-written model (the searching methods GetIndex / Contains* and the class functions are tied by the differential run only); the correspondence is sampled (exhaustive only in the stated small sub-spaces). Go int is unbounded in the model; element equality is taken on canonical ids; crypto/rand is external (shuffle judged by the spec only).",
     assumptions=["Go int is unbounded in the model (indices near MaxInt not generated)",
                  "element equality is structural equality of the canonical ids (NaN excluded as the property states)",
                  "ShuffleValues: crypto/rand indices are in range (model hypothesis Op.wf); the run only judges the result by the spec"],
@@ -108,13 +108,13 @@ PROPS['C02'] = dict(
          "growth run to size 200/1000; collators default, reversed, coarse; element types int, string, []int, any, Set[int]; "
          "non-trivial = not the constructor line; distinct = distinct (type, collator, operation, outcome, sizes, aliasing, boolean result)",
     exhaustive_subspaces="all single steps from all subset states of the universe, per element type and collator (thorough tier)",
-    level_text="Lean 4 theorems: C02_findIndex (the binary search as written – first/last/size triple, middle = first + size/2 – returns found=(member up to rank-equivalence) with the rank-equal index, else the insertion slot <= size with everything before below and everything after above the probe), C02_step_refines (every Set call refines the abstract ordered duplicate-free set), C02_step_sorted / C02_history_sorted (strictly ascending after every call of every history, for ANY total-preorder collator), C02_add_members / C02_remove_members (membership = added and not removed), C02_slot_in_range. Tied to /repo (a) by translation: set_.findIndex is re-translated statement by statement on every run (Generated/LoopsSet.lean, int arithmetic with 64-bit wrap-around, truncating division) and Tie.findIndex_tie proves it equal to the model's binary search for every list shorter than 2^63, every collator and every probe; (b) by the differential run and the executable spec on the real observations.",
+    level_text="Lean 4 theorems: C02_findIndex (the binary search as written – first/last/size triple, middle = first + size/2 – returns found=(member up to rank-equivalence) with the rank-equal index, else the insertion slot <= size with everything before below and everything after above the probe), C02_step_refines (every Set call refines the abstract ordered duplicate-free set), C02_step_sorted / C02_history_sorted (strictly ascending after every call of every history, for ANY total-preorder collator), C02_add_members / C02_remove_members (membership = added and not removed), C02_slot_in_range. Tied to /repo (a) by translation: set_.findIndex is re-translated statement by statement on every run (Generated/LoopsSet.lean, int arithmetic with 64-bit wrap-around, truncating division) and Tie.findIndex_tie proves it equal to the model's binary search for every list shorter than 2^63, every collator and every probe; AddValue, RemoveValue, AddValues, RemoveValues, ContainsValue, ContainsAny, ContainsAll, GetIndex, RemoveAll and the class functions MakeFromSequence, And, Or, Sans, Xor are re-translated likewise (composed of the translated findIndex and the Seq model's InsertValue / RemoveValue; the collator a new set gets is read off the source) and Tie.setAddValue_tie … setXor_tie prove them equal to the SetM model; (b) by the differential run and the executable spec on the real observations.",
     level_note="Collators are shared by name between harness and driver; the default collator is exercised through canonical ids whose order equals the default collator's order (C07 is about the collator itself). Sampled correspondence.",
 )
 
 PROPS['C15'] = dict(
     id='C15',
-    modules=['CollectionModel.Props.C15'],
+    modules=['CollectionModel.Props.C15', 'CollectionModel.Tie.LoopsSet'],
     key=set_key, nontrivial=lambda l: len(l.get('vs', [])) + len(l.get('ws', [])) > 0,
     rule="cases = one And/Or/Sans/Xor call on two freshly built sets (operands, result, operands afterwards, independence "
          "probe: mutate the result / the operands afterwards and re-read the other side); all pairs of subsets of a 6-value "
@@ -122,7 +122,7 @@ PROPS['C15'] = dict(
          "collators, composite elements ([]int, Set[int], any), the same set passed twice, random pairs over a 40-value universe; "
          "non-trivial = at least one operand non-empty",
     exhaustive_subspaces="thorough tier: all 4096 pairs of subsets of a 6-value universe x 4 operations, element types int and string",
-    level_text="Lean 4 theorems C15_and / C15_or / C15_sans / C15_xor: the class functions as written (And: filter-by-ContainsValue then AddValue; Or: AddValues twice; Sans: AddValues then RemoveValues; Xor: Or of two Sans) return a strictly ascending duplicate-free set whose members are exactly the intersection / union / difference / symmetric difference up to rank-equivalence, for every pair of sets and every total-preorder collator; C15_step_refines (they refine the executable spec the driver applies to the real observations); C15_same_operand (A op A). Operand immutability and result independence are runtime aliasing facts checked dynamically by the harness probes.",
+    level_text="Lean 4 theorems C15_and / C15_or / C15_sans / C15_xor: the class functions as written (And: filter-by-ContainsValue then AddValue; Or: AddValues twice; Sans: AddValues then RemoveValues; Xor: Or of two Sans) return a strictly ascending duplicate-free set whose members are exactly the intersection / union / difference / symmetric difference up to rank-equivalence, for every pair of sets and every total-preorder collator; C15_step_refines (they refine the executable spec the driver applies to the real observations); C15_same_operand (A op A). Tied to /repo by translation as well: And, Or, Sans, Xor and MakeFromSequence are re-translated from set.go on every run (Generated/LoopsSet.lean; which collator the result is made with is read off the source) and Tie.setAnd_tie / setOr_tie / setSans_tie / setXor_tie prove them equal to the SetM functions these theorems are about. Operand immutability and result independence are runtime aliasing facts checked dynamically by the harness probes.",
     level_note="In the model operands are values, so 'operands unchanged' is by construction; the storage-independence half of the property is validated by the harness's mutate-and-reread probes (aft_a, aft_b, indep fields), not proved.",
 )
 
